@@ -51,6 +51,17 @@ func main() {
 		}
 		os.Setenv("VERIF_NO_EVIDENCE", "1")
 		os.Exit(runProp(r.Property, "quick"))
+	case "rename": // dev: print <file> with all locals renamed (the rename_all benign variant)
+		b, err := os.ReadFile(os.Args[2])
+		if err != nil {
+			fatalf("%v", err)
+		}
+		out, err := renameAllLocals(string(b), os.Args[3:])
+		if err != nil {
+			fatalf("%v", err)
+		}
+		fmt.Print(out)
+		return
 	case "dump":
 		dumpCmd(os.Args[2:])
 		return
@@ -144,7 +155,9 @@ func runProp(id, tier string) int {
 	}
 	wd.Stop()
 	if tier == "thorough" && os.Getenv("VERIF_NO_MUTANTS") == "" {
-		runMutants(c)
+		if os.Getenv("VERIF_ONLY_BENIGN") == "" {
+			runMutants(c)
+		}
 		runBenign(c)
 	}
 	return c.Finish()
